@@ -45,6 +45,7 @@ type MutModel struct {
 	dictStore map[*ssa.Function]bool // redisDict methods that insert/overwrite
 	dictRem   map[*ssa.Function]bool // redisDict methods that remove
 	errs      []string
+	dead      []string   // functions with no path from any root (their sites are not obligations)
 	fKeyspace *types.Var // dataStore.data
 	fDirty    *types.Var // redisDict.dirty
 	fID       *types.Var // storeKey.id
@@ -169,9 +170,27 @@ func (m *Models) Muts() *MutModel {
 	if len(mm.dictStore) == 0 || len(mm.dictRem) == 0 {
 		mm.errs = append(mm.errs, "redisDict insert/remove methods not identified")
 	}
+	live := map[*ssa.Function]bool{}
+	for _, r := range m.Req().roots {
+		for f := range m.Reach(r) {
+			live[f] = true
+		}
+	}
+	// handlers reach everything through the dispatch site of their own goroutine root; add them explicitly
+	if hs, err := m.Handlers(); err == nil {
+		for _, h := range hs {
+			for f := range m.Reach(h) {
+				live[f] = true
+			}
+		}
+	}
 	for _, fn := range p.SrcFuncs() {
 		// the dictionary's own methods are the primitive; their stores are not sites
 		if fn.Signature.Recv() != nil && p.isPkgType(fn.Signature.Recv().Type(), "redisDict") {
+			continue
+		}
+		if !live[fn] {
+			mm.dead = append(mm.dead, fnName(fn))
 			continue
 		}
 		for _, in := range instrsOf(fn) {
@@ -350,10 +369,48 @@ type CoverModel struct {
 	always  map[*ssa.Function]bool // every entry→return path performs E
 	// forwardOnly: the event must come after the site (emptiness checks); otherwise before or after.
 	forwardOnly bool
+	// pruneNotFound: do not follow the "key not found" edge of a keyspace lookup (there is no object to
+	// give a version to; callers pass the key of the object they modify)
+	pruneNotFound bool
 }
 
-func (m *Models) newCover(ev Event) *CoverModel {
+// notFoundEdge: edge a->b is the false edge of `if exists` where exists is result #1 of a lookup
+// returning (*storeKey, bool).
+func (cm *CoverModel) notFoundEdge(a, b *ssa.BasicBlock) bool {
+	if !cm.pruneNotFound {
+		return false
+	}
+	ifi, ok := a.Instrs[len(a.Instrs)-1].(*ssa.If)
+	if !ok || a.Succs[0] == a.Succs[1] {
+		return false
+	}
+	cond := ifi.Cond
+	neg := false
+	if u, ok := cond.(*ssa.UnOp); ok && u.Op == token.NOT {
+		cond, neg = u.X, true
+	}
+	ex, ok := cond.(*ssa.Extract)
+	if !ok || ex.Index != 1 {
+		return false
+	}
+	call, ok := ex.Tuple.(*ssa.Call)
+	if !ok {
+		return false
+	}
+	res := call.Call.Signature().Results()
+	if res.Len() != 2 || !cm.m.p.isPkgType(res.At(0).Type(), "storeKey") {
+		return false
+	}
+	notFound := a.Succs[1]
+	if neg {
+		notFound = a.Succs[0]
+	}
+	return b == notFound
+}
+
+func (m *Models) newCover(ev Event, prune ...bool) *CoverModel {
 	cm := &CoverModel{m: m, mm: m.Muts(), isEvent: ev, always: map[*ssa.Function]bool{}}
+	cm.pruneNotFound = len(prune) > 0 && prune[0]
 	// least fix-point of alwaysE
 	for changed := true; changed; {
 		changed = false
@@ -436,7 +493,7 @@ func (cm *CoverModel) exitReachableWithoutE(fn *ssa.Function, b *ssa.BasicBlock,
 			continue
 		}
 		for _, s := range cur.b.Succs {
-			if !seen[s] {
+			if !seen[s] && !cm.notFoundEdge(cur.b, s) {
 				seen[s] = true
 				stack = append(stack, pt{s, 0})
 			}
@@ -472,7 +529,7 @@ func (cm *CoverModel) entryReachesWithoutE(in ssa.Instruction) bool {
 			return true
 		}
 		for _, pr := range cur.b.Preds {
-			if !seen[pr] {
+			if !seen[pr] && !cm.notFoundEdge(pr, cur.b) {
 				seen[pr] = true
 				stack = append(stack, pt{pr, len(pr.Instrs)})
 			}
